@@ -54,6 +54,11 @@ def generate(tier, rng):
         elif u < 0.46:
             t = gen.random_itier(rng, tmax=30, maxn=5, long_p=0.015)
             rows = _rows(rng, rng.randint(0, 10), 32)
+            if rng.random() < 0.04:
+                # a series as long as real pitch / intensity listings (a thousand rows and more), mostly in time order
+                rows = _rows(rng, rng.randint(1000, 1400), max(32, t["max"]))
+                if rng.random() < 0.8:
+                    rows.sort()
             if rng.random() < 0.5:
                 rows.sort()
             if t["entries"] and rng.random() < 0.6:
@@ -62,6 +67,8 @@ def generate(tier, rng):
         elif u < 0.62:
             t = gen.random_ptier(rng, tmax=30, maxn=6, distinct=rng.random() < 0.7, long_p=0.015)
             rows = _rows(rng, rng.randint(0, 10), 32)
+            if rng.random() < 0.04:
+                rows = sorted(_rows(rng, rng.randint(1000, 1400), max(32, t["max"])))
             if t["entries"] and rng.random() < 0.6:
                 rows.append([rng.choice(t["entries"])[0], 77])
             if rng.random() < 0.5:
@@ -240,6 +247,22 @@ def _equality(case, sc):
             fails.append("== does not distinguish a change of %s" % what)
         if (t == u) != (u == t):
             fails.append("== not symmetric under a change of %s" % what)
+    # labels (and names) are compared as the strings they are: other case, another spelling of the same letters
+    # (precomposed / decomposed, compatibility forms), an invisible character more -- each is another label
+    pairs = [("\u00e9", "e\u0301"), ("\u212b", "\u00c5"), ("K", "\u212a"), ("\ufb01", "fi"), ("a", "A"), ("a", "a\u200b"),
+             ("\u1100\u1161", "\uac00"), ("x", "x\ufeff"), ("", "\u200b")]
+    if spec["entries"]:
+        k = rng.randrange(len(spec["entries"]))
+        x, y = rng.choice(pairs)
+        ea, eb = [list(e) for e in spec["entries"]], [list(e) for e in spec["entries"]]
+        ea[k][-1], eb[k][-1] = ea[k][-1] + x, eb[k][-1] + y
+        ua, ub = core.mk_tier(dict(spec, entries=ea), sc), core.mk_tier(dict(spec, entries=eb), sc)
+        if ua.entries[k][-1] != ub.entries[k][-1] and ((ua == ub) or (ub == ua)):
+            fails.append("== does not distinguish the labels %r and %r" % (ea[k][-1], eb[k][-1]))
+    x, y = rng.choice(pairs[:8])
+    ua, ub = core.mk_tier(dict(spec, name=spec["name"] + x), sc), core.mk_tier(dict(spec, name=spec["name"] + y), sc)
+    if (ua == ub) or (ub == ua):
+        fails.append("== does not distinguish the names %r and %r" % (ua.name, ub.name))
     # a timestamp changed beyond rounding noise / within rounding noise
     if spec["entries"]:
         ents = [list(e) for e in spec["entries"]]
